@@ -194,10 +194,30 @@ def judge_import_ws(ctx, vh, db, ws, model, root):
                           {"spec": ws.spec, "kind": res_kind(res) if res else None}, files=ws.files)
 
 
+def directed_plugins_ws(root):
+    """pytest_plugins assigned more than once per conftest: the last assignment alone counts, whatever its form (plain after
+    annotated, annotated after plain, non-literal after literal, literal after non-literal)"""
+    ws = gen.WS(root)
+    mods = ["old_a", "new_a", "old_b", "new_b", "old_c", "new_d"]
+    for k, m in enumerate(mods):
+        ws.files[f"pkg/{m}.py"] = HDR + fx("f_" + m, k)
+    ws.files["pkg/__init__.py"] = ""
+    ws.files["pkg/conftest.py"] = 'pytest_plugins = ["pkg.old_a"]\npytest_plugins: list[str] = ["pkg.new_a"]\n'
+    ws.files["pkg/sub/conftest.py"] = 'pytest_plugins: list[str] = ["pkg.old_b"]\npytest_plugins = ["pkg.new_b"]\n'
+    ws.files["pkg/other/conftest.py"] = 'pytest_plugins = ["pkg.old_c"]\npytest_plugins = _discover_plugins()\n'
+    ws.files["pkg/sub/deep/conftest.py"] = 'pytest_plugins = _discover_plugins()\npytest_plugins = ("pkg.new_d",)\n'
+    names = ["f_" + m for m in mods]
+    probe = "".join(f"def test_p_{nm}({nm}):\n    pass\n\n" for nm in names)
+    for d in ("pkg", "pkg/sub", "pkg/other", "pkg/sub/deep", ""):
+        ws.files[os.path.join(d, "test_probe.py")] = probe
+    ws.spec = {"depth": 3, "names": names, "mods": [], "entries": [], "directed": "pytest_plugins assigned twice"}
+    return ws
+
+
 def part_a(ctx, vh, n):
     for i in range(n):
         root = ctx.scratch(f"g{i}")
-        ws = gen_import_graph(root, ctx.rng)
+        ws = directed_plugins_ws(root) if i == 0 else gen_import_graph(root, ctx.rng)
         write_tree(root, ws.files)
         model = ws.model()
         db = vh.new_db()
@@ -353,7 +373,14 @@ def part_b(ctx, vh, n, n_srv):
         write_tree(root, files)
         write_tree(outside, ext_files)
         db = vh.new_db()
-        r = vh.call(op="scan", db=db, root=root)
+        scan_root = root
+        if i % 2 == 1:
+            # the client names the workspace through a symbolic link: classification (project / plugin / third-party) and
+            # everything else must be what it is for the real path
+            scan_root = os.path.join(base, "ws_link")
+            os.symlink(root, scan_root)
+            ctx.nontrivial(("venv_layout_scanned_through_a_symlinked_root",))
+        r = vh.call(op="scan", db=db, root=scan_root)
         if "panic" in r:
             ctx.violation({"kind": "scan-panicked"}, {"r": r}, files=files)
             continue
@@ -415,7 +442,7 @@ def part_b(ctx, vh, n, n_srv):
             ctx.nontrivial(("b", tier, e["rel"].split("/")[-1].split(".")[0][:6], "egg" if any("egg-info" in f_ for f_ in files) else "dist"))
         vh.call(op="drop_db", db=db)
         if i < n_srv:
-            server_symbols(ctx, root, files, expect)
+            server_symbols(ctx, scan_root, files, expect)
         ctx.sample({"expect": expect, "files": sorted(files)[:25]})
         ctx.count("venv_layouts")
         shutil.rmtree(base, ignore_errors=True)
